@@ -65,6 +65,10 @@ def seed_nested():
     s["variants"] = [vspec("Server", paths={"packages": "Packages", "repository": ".", "debug_packages": "debug/Packages"},
                            children=[opt, ha]),
                      vspec("Client", paths={"packages": "Client/Packages", "repository": "Client"})]
+    # a platform whose name has a dash, next to the platform it begins with
+    s["tree"]["platforms"] = sorted(set(s["tree"]["platforms"]) | {"xen", "xen-hvm"})
+    s["images"] = dict(s["images"], **{"xen-hvm": {"kernel": "images/pxeboot/vmlinuz-hvm"}})
+    s["images"].setdefault("xen", {"kernel": "images/pxeboot/vmlinuz-xen"})
     return s
 
 
@@ -226,7 +230,7 @@ TEXTS = ["Fedora", "Red Hat  Enterprise Linux", "MiXed Case", "Näme 日本", "a
          "Fedora\u2028 21", "a\x0cb\x1cc\x85d"]
 VERSIONS = ["21", "7.0", "2.1.3", "Rawhide"]
 TIMESTAMPS = [1, 123456, 2 ** 33]
-PLATFORM_POOL = ["xen", "efi", "ppc64le"]
+PLATFORM_POOL = ["xen", "efi", "ppc64le", "xen-hvm"]
 OPTION_NAMES = ["kernel", "Mixed.Case", "dir/with space.img"]
 PATH_VALUES = ["Some/Packages", "", ".", "../../appstream/x86_64/", "./Packages/", "repo/Server"]
 DIGESTS = {"md5": "1" * 32, "sha1": "2" * 40, "sha256": "3" * 64, "sha512": "4" * 128}
@@ -273,6 +277,12 @@ def edits(spec, seed=0, max_depth=3, with_float=False, with_main=False):
         if "Server-optional" not in [v["uid"] for v, _, _ in nodes] and "optional" not in top_ids:
             out.append(["addvar", None, vspec("optional", "optional", uid="Server-optional",
                                               paths={"packages": "opt/Packages", "repository": "opt"})])
+        # a top-level variant named like the id of somebody's child (its sections must not be mixed up with the child's)
+        for v, depth, _ in nodes:
+            if depth == 2 and v["id"] not in top_ids and v["id"] not in top_uids and v["id"].isalnum():
+                out.append(["addvar", None, vspec(v["id"], "variant", paths={"packages": "top-%s/Packages" % v["id"], "repository": "top-%s" % v["id"],
+                                                                              "identity": "top-%s/id.pem" % v["id"]})])
+                break
         if "Server-optional" in top_uids and "Client-optional" not in top_uids:
             # a second top-level variant with the SAME id: only their UIDs tell them apart
             out.append(["addvar", None, vspec("optional", "optional", uid="Client-optional",
